@@ -40,7 +40,7 @@ def eng():
 
 class Engine:
     def __init__(self, timeout_ms=600000, seed=0, max_paths=20000, logic=None):
-        self.solver = z3.Solver() if logic is None else z3.SolverFor(logic)
+        self.solver = z3.Solver() if logic is None else (z3.SimpleSolver() if logic == 'simple' else z3.SolverFor(logic))
         self.solver.set("timeout", timeout_ms)
         self.solver.set("random_seed", seed % (2**31))
         self.timeout_ms = timeout_ms
